@@ -175,3 +175,19 @@ Example add_never_decreases_nonvacuous :
   normalised sample_b /\ ffinite f_05 = true /\ 0 <= B2R f_05 /\ 0 <= B2R (tq sample_b) /\
   B2R (tq sample_b) + IZR (Zfloor (RN (B2R (tr sample_b) + B2R f_05))) <= bpow radix2 53.
 Proof. exact sample_add_hyps. Qed.
+
+(** ** Subtraction: [Time.__sub__] evaluates fl(fl(fl(qa - qb) + ra) - rb); the result is within
+    three units in the last place of max(1, |exact difference|) (no bound on the quotients other
+    than |q| <= 2^1020, which excludes overflow). *)
+Theorem sub_error : forall a b : time,
+  normalised a -> normalised b ->
+  Rabs (B2R (tq a)) <= bpow radix2 1020 -> Rabs (B2R (tq b)) <= bpow radix2 1020 ->
+  Rabs (B2R (time_sub a b) - (value a - value b)) <=
+    3 * ulp64 (Rmax 1 (Rabs (value a - value b))).
+Proof. exact TimeProofs.sub_error. Qed.
+Print Assumptions sub_error.
+Example sub_error_nonvacuous :
+  (normalised sample_a /\ normalised sample_b /\
+   Rabs (B2R (tq sample_a)) <= bpow radix2 1020 /\ Rabs (B2R (tq sample_b)) <= bpow radix2 1020) /\
+  feqb_bits (time_sub sample_b sample_a) f_05 = true.
+Proof. split; [exact sample_sub_hyps|vm_compute; reflexivity]. Qed.
